@@ -40,7 +40,7 @@ CHECKS = {
                     "Add on the existing leaf or Leaf.Update through a handle - in an order that keeps an invariant in every sequential order: make-then-break (at every instant at least one leaf matches: a conditional delete over them "
                     "cannot remove nothing), break-then-make (never two: it cannot remove both, nor report two values that never matched together), rotate over three leaves, two movers, generated rewrites, the mirrored predicate; "
                     "against DeleteConditional / WalkDeleted (rarely Delete) with subtree / glob / everything patterns, optionally sweeping twice, a second deleter, a reader or a third writer. pair-move runs every scenario for "
-                    "600-20000 aligned rounds (fewer the more bystanders) on persistent racers, every round judged through its canonical form (the result of every operation - removed paths / reported values, nothing removed included - the final "
+                    "450-10000 aligned rounds (fewer the more bystanders) on persistent racers, every round judged through its canonical form (the result of every operation - removed paths / reported values, nothing removed included - the final "
                     "content and the real-time precedence between operations; first occurrence of a form and one round in 4096 by porcupine against the model, in which a delete removes exactly the selected leaves that satisfy the condition "
                     "in one step, and by the differential oracle). In cbgate the delete parks inside its k-th condition call while the mover makes a leaf the delete inspected and kept match and then an uninspected leaf stop matching. "
                     "Bounded exploration of schedules: the gate part is exhaustive in nothing, the stress part sees only schedules the Go scheduler produces."),
@@ -84,8 +84,8 @@ CHECKS = {
             dict(name="pair-access", run="TestC10PairAccess", checks=dict(quick=40, thorough=300), shards=dict(quick=2, thorough=8),
                  args=dict(quick=["-c10.pairrounds=8000", "-c10.stall=20s"], thorough=["-c10.pairrounds=30000"])),
             # the pair machinery on a third family: value-dependent conditional deletes against writers that move the truth of the condition between
-            # leaves (rounds per scenario are the scenario's own: 20000 without bystander leaves down to 600 with 256)
-            dict(name="pair-move", run="TestC10PairMove", checks=dict(quick=20, thorough=150), shards=dict(quick=2, thorough=8),
+            # leaves (rounds per scenario are the scenario's own: 10000 without bystander leaves down to 450 with 256)
+            dict(name="pair-move", run="TestC10PairMove", checks=dict(quick=16, thorough=150), shards=dict(quick=2, thorough=8),
                  args=dict(quick=["-c10.stall=20s"], thorough=["-c10.movescale=2"])),
         ],
     ),
@@ -628,14 +628,21 @@ CHECKS = {
     ),
     "C17": dict(
         engine="targetprop",
-        technique="model-based property testing (rapid): generated sequences of configuration loads against a plain-data reference model, with replay of the recorded handler calls",
+        technique="model-based property testing (rapid): generated sequences of configuration loads against a plain-data reference model, with replay of the recorded handler calls; the shape of the consumer (every subset of the three callbacks, through every constructor) as a generated dimension, judged by the model's difference projected onto the registered kinds",
         level_text=("Tens of thousands of generated sequences of 1-12 Config.Load calls (optionally on top of NewConfigWithBase) are executed against the real "
                     "target.Config with recording Add/Update/Delete handlers and compared, after every load, with a reference model that keeps the last "
                     "accepted configuration as plain data: Load returns nil iff the configuration is valid and (there is no current configuration or the "
                     "revision is strictly greater than the current one); a rejected load ran no handler and left Current() unchanged; after an accepted load "
                     "Current() is the loaded configuration, the handler calls replayed onto the initial set (empty, or the base's targets) yield exactly "
                     "{name -> (target settings, referenced request body)} of Current(), a target whose settings and referenced request body are unchanged "
-                    "received no call, and no name received two calls in one load. Bounded random exploration over small pools, not a proof."),
+                    "received no call, and no name received two calls in one load. Bounded random exploration over small pools, not a proof."
+                    " The shape of the consumer is a dimension of parts random, degenerate, edges and reload: target.Handler with every subset of {Add, Update, Delete} registered (all three "
+                    "in about two thirds of the cases, each of the seven proper subsets - the empty one included - in 3-7%), handed to NewConfig, NewConfigWithBase(nil), NewConfigWithBase(base "
+                    "without targets) or NewConfigWithBase(base with targets) (the package has no other constructor and no way to replace a callback later). For every accepted load the full "
+                    "difference current -> loaded is computed on reference messages (Delete for a name that is gone, Add for a new one, Update for a name whose settings or referenced request "
+                    "changed, nothing otherwise) and the calls actually made must be exactly that difference restricted to the registered kinds - every such entry announced once with the "
+                    "settings and request of the loaded configuration, nothing else announced, unregistered kinds simply absent; a refused load calls nothing whatever is registered. The "
+                    "replay oracle is applied only when all three kinds are registered."),
         level_note=("trusts the ~60-line reference (validity predicate, revision gate, replay map) and proto.Equal/proto.Clone for comparing messages; the "
                     "reference validity predicate is cross-checked against target.Validate on every generated configuration; replay is strict "
                     "(Add only for a name not in the set, Update/Delete only for a name in it, as the Handler documentation words them); "
@@ -646,10 +653,14 @@ CHECKS = {
               "config meta; invalid variants: empty name, nil target, no address, missing request, dangling request) over pools of 5 target names, 3 request "
               "names x 3 request bodies, 3 address sets, with a revision that is current+{1,2,3,0,-1,-3} or an absolute value (incl. int64 extremes). "
               "non-trivial = some accepted load changes a request body and re-points or removes a target in the same revision, or a rejected load lies "
-              "between two accepted ones; distinct = distinct hash of the scenario"),
+              "between two accepted ones; distinct = distinct hash of the scenario"
+              "; every case also carries the subset of Handler callbacks its consumer registers (labels consumer-*; partial-consumer-* and unregistered-<kind>-in-difference say "
+              "through which constructor a proper subset was registered, that an accepted load kept an unchanged target silent, announced a registered kind, or had a difference "
+              "containing a kind the consumer did not register)"),
         assumptions=COMMON + ["base configurations passed to NewConfigWithBase are valid (an invalid base is refused by the constructor and is not part of C17); part edges alone offers invalid bases and demands exactly that refusal",
                               "the caller does not modify a configuration message after handing it to Load / NewConfigWithBase",
-                              "all three Handler callbacks are set (nil callbacks are skipped by the code and cannot be observed)"],
+                              "all three Handler callbacks are set (nil callbacks are skipped by the code and cannot be observed) in parts alias and overlap; parts random, degenerate, edges and reload "
+                              "also run consumers that register any subset of them: what cannot be observed is not demanded, what reaches the registered callbacks must be the model's difference restricted to their kinds"],
         parts=[
             dict(name="random", run="TestC17Random", checks=dict(quick=20000, thorough=100000), shards=dict(quick=1, thorough=16)),
             dict(name="reload", run="TestC17Reload", checks=dict(quick=150, thorough=1500), shards=dict(quick=4, thorough=16)),
